@@ -31,6 +31,8 @@ Decided (DESIGN.md section 5, C15):
      R3-narrow-store-guarded          RelationsMapStash::add stores into the 32-bit map only when both ids are <= 2^32-1
      R3-narrow-lookup-guarded         RelationsMapIndex::for_each hands its 64-bit id to the 32-bit map (directly or through a helper) only under
                                       a dominating test that it is <= 2^32-1   [found F28, fixed by 3df468d]
+     R5-indexes-argument-routing      both RelationsMapIndexes constructors route parameter 1 / 2 to the same members; build_indexes passes
+                                      (map as recorded, flipped map); member_to_parent() returns the index built from the first argument
      R4-index-dispatch                RelationsMapIndex: the constructor taking the 32-bit map sets the small flag, the other clears it;
                                       for_each / empty / size use the 32-bit map exactly under the flag; for_each passes it->value for
                                       every element of the range; add_members records (member, parent)
@@ -1102,6 +1104,57 @@ def relmap_rules(fb, R):
             R.check(good, r4, fn.q + '#calls-func-with-value-of-whole-range', fn.site,
                     'for_each must call the functor with it->%s for every element of [range.first, range.second) of <map>.get(id), for both maps '
                     '(directly or through a helper of the class that receives the map and the id)' % kv[1])
+    # ---- R5 the pair of indexes: argument -> member routing
+    r5 = 'R5-indexes-argument-routing'
+    xrec = fb.record(RINDEXES)
+    xfields = [f['name'] for f in xrec.fields] if xrec is not None else []
+    accessor = {}     # public accessor name -> member it returns
+    for fn in [f for f in fb.functions if f.cls == RINDEXES and f.has_cfg and f.kind == 'method' and not f.params and len(_returns(f)) == 1]:
+        m_ = fn.sn(_returns(fn)[0]['sub'])
+        if m_ is not None and m_.get('k') == 'member' and m_.get('name') in xfields:
+            accessor[fn.name] = m_['name']
+    routes = {}
+    for fn in [f for f in fb.functions if f.cls == RINDEXES and f.has_cfg and f.kind == 'ctor' and len(f.params) == 2]:
+        route = {}
+        for n in fn.all_nodes():
+            if n.get('k') == 'init' and n.get('name') in xfields and isinstance(n.get('init'), int):
+                ps = {i_ for i_, p_ in enumerate(fn.params) if p_['d'] in U.vars_in(fn, n['init'])}
+                route[n['name']] = tuple(sorted(ps))
+        routes[fn.params[0]['tC']] = (fn, route)
+    if len(routes) < 2 or len(xfields) != 2:
+        R.broken('RelationsMapIndexes: two members / two two-argument constructors expected')
+    else:
+        ref = None
+        for t_, (fn, route) in sorted(routes.items()):
+            ok = sorted(route.values()) == [(0,), (1,)]
+            if ok and ref is None:
+                ref = route
+            R.check(ok and route == ref, r5, '%s(%s)#same-parameter-to-same-member' % (fn.q, 'map32' if 'unsigned int' in t_ or 'uint32' in t_ else 'map64'), fn.site,
+                    'the RelationsMapIndexes constructors must route parameter 1 and 2 to the same members (%s vs %s): with the other width the two '
+                    'directions would answer for each other' % (route, ref))
+        # the call sites fix the meaning: (as recorded = member -> parent, flipped = parent -> member)
+        first_member = next((k for k, v in (ref or {}).items() if v == (0,)), None)
+        for fn in sfns:
+            for c in fn.all_nodes():
+                if c.get('k') != 'construct' or c.get('q') != RINDEXES + '::(ctor)' or c.get('copymove') or c.get('elidable') or len(c.get('args', [])) != 2:
+                    continue
+                def flipped(a_):
+                    r_ = _map_roots(fn, a_)
+                    if r_ is None:
+                        return None
+                    if r_[0] == 'var':
+                        init = U.local_init(fn, r_[1])
+                        x_ = U.scn(fn, init) if init is not None else None
+                        return x_ is not None and x_.get('k') == 'call' and x_.get('q') == FMAP + '::flip_copy'
+                    return any(n.get('k') == 'call' and n.get('q') == FMAP + '::flip_in_place' and _map_roots(fn, n.get('recv')) == r_ for n in fn.all_nodes())
+                f0, f1 = flipped(c['args'][0]), flipped(c['args'][1])
+                R.check(f0 is False and f1 is True, r5, '%s#passes-recorded-then-flipped' % fn.q, fn.loc(c['id']),
+                        '%s must construct the pair of indexes from (map as recorded, flipped map) in this order' % fn.q)
+        R.check(accessor.get('member_to_parent') == first_member and first_member is not None and accessor.get('parent_to_member') not in (None, first_member),
+                r5, RINDEXES + '#accessors-match-routing', '%s:%d' % (xrec.file, xrec.line),
+                'member_to_parent() must return the index built from the first constructor argument (the map as recorded: key = member) and '
+                'parent_to_member() the other one; found accessors %s, routing %s' % (accessor, ref))
+
     for fn in [f for f in sfns if f.name == 'add_members']:
         adds = [n for n in fn.all_nodes() if n.get('k') == 'call' and n.get('q') == STASH + '::add' and len(n.get('args', [])) == 2]
         ok = len(adds) == 1
@@ -1572,6 +1625,7 @@ def run(ctx):
     R.expect('R3-narrow-store-guarded', 1)
     R.expect('R3-narrow-lookup-guarded', 1)         # RelationsMapIndex::for_each (F28, fixed by 3df468d)
     R.expect('R4-index-dispatch', 7)
+    R.expect('R5-indexes-argument-routing', 4)       # two constructors, build_indexes call sites, accessors
     R.expect('I1-remove-pairs-updates', 4)
     R.expect('I2-gc-rewrites-index', 5)
     R.expect('I3-handle-discipline', 7)
@@ -1593,4 +1647,5 @@ SELFTESTS = [(r, 'c15_sets.cpp', _selftest_sets) for r in (
     'A5-idset-size-tracks-bit-flips', 'A6-idset-copy-keeps-chunk-slots', 'S1-search-key-prefix-of-sort-key', 'S2-sort-unique-erase',
     'R1-builders-hand-out-sorted-maps', 'R2-merge-appends-every-element', 'R3-narrow-store-guarded', 'R4-index-dispatch',
     'I1-remove-pairs-updates', 'I2-gc-rewrites-index', 'I3-handle-discipline', 'I4-no-stale-buffer-offset',
-    'L1-special-members-memberwise', 'I5-gc-decision-monotone-in-removed', 'R3-narrow-lookup-guarded')]
+    'L1-special-members-memberwise', 'I5-gc-decision-monotone-in-removed', 'R3-narrow-lookup-guarded',
+    'R5-indexes-argument-routing')]
